@@ -485,7 +485,9 @@ func inTxRunner(f *ssa.Function) bool {
 func reachableAvoidingInstr(fn *ssa.Function, l *Loop, to *ssa.BasicBlock, pred func(ssa.Instruction) bool) bool {
 	for _, entry := range l.bodyEntries() {
 		q := &PathQuery{Fn: fn, Barrier: pred}
-		q.EdgeBarrier = func(from *ssa.BasicBlock, si int) bool { return !l.Blocks[from.Succs[si]] || from.Succs[si] == l.Header }
+		q.EdgeBarrier = func(from *ssa.BasicBlock, si int) bool {
+			return !l.Blocks[from.Succs[si]] || from.Succs[si] == l.Header
+		}
 		q.Target = func(ins ssa.Instruction, via *ssa.BasicBlock) bool {
 			return ins.Block() == to && ins == to.Instrs[len(to.Instrs)-1]
 		}
